@@ -34,7 +34,7 @@ class InlineTranslator:
     """Inlines rules that are the q unique reason for a predicate"""
 
     def __init__(self, prg: list[AST], input_predicates: list[Predicate], output_predicates: list[Predicate]):
-        self.unique_names = UniqueNames(prg, input_predicates)
+        self.unique_names = UniqueNames(prg, list(input_predicates) + list(output_predicates))
         self.domain_predicates = DomainPredicates(self.unique_names, prg, input_predicates)
         self.input_predicates = input_predicates
         self.output_predicates = output_predicates
